@@ -157,6 +157,10 @@ def run_history(ctx, out: common.Outcome, model_key: str, nsteps: int, observers
     import random
 
     rng = rng or random.Random(f"{ctx.prop}:{ctx.seed}:{model_key}:{hist_id}")
+    # list handles remembered by the generator belong to ONE history: python ids of lxml proxies are reused after a
+    # model is garbage collected, so a handle of an earlier history could be taken for an "outdated second handle"
+    objops._HANDLES.clear()
+    objops._INTER_CACHE.clear()
     model = model or ol.load(ctx, model_key)
     loader = model._loader
     rels = objops.discover(model, rng, max_objs=ctx.pick(250, 600))
